@@ -310,7 +310,9 @@ func runC13(c *an.Ctx) {
 			return out
 		}
 	}
-	isClear := func(call ssa.CallInstruction) bool { return call.Common().IsInvoke() && call.Common().Method.Name() == "Clear" }
+	isClear := func(call ssa.CallInstruction) bool {
+		return call.Common().IsInvoke() && call.Common().Method.Name() == "Clear"
+	}
 	specs := []commitSpec{
 		{"filter/internal/rulelist.(*Refreshable).Refresh", "engine swap", storeTo("filter/internal/rulelist.filter", "engine")},
 		{"filter/internal/rulelist.(*Refreshable).Refresh", "cache clear", callTo(isClear)},
@@ -320,7 +322,9 @@ func runC13(c *an.Ctx) {
 			return strings.HasSuffix(an.CalleeName(call), ".Store") && strings.Contains(an.CalleeName(call), "atomic.Pointer")
 		})},
 		{"filter/internal/serviceblock.(*Filter).Refresh", "service map swap", storeTo("filter/internal/serviceblock.Filter", "services")},
-		{"filter/filterstorage.(*Default).refresh", "rule-list map swap", callTo(func(call ssa.CallInstruction) bool { return an.IsCall(call, "(*filter/filterstorage.Default).resetRuleLists") })},
+		{"filter/filterstorage.(*Default).refresh", "rule-list map swap", callTo(func(call ssa.CallInstruction) bool {
+			return an.IsCall(call, "(*filter/filterstorage.Default).resetRuleLists")
+		})},
 		{"filter/filterstorage.(*Default).addRuleList", "new list enters the round's map", func(fn *ssa.Function) (out []ssa.Instruction) {
 			an.Instrs(fn, func(in ssa.Instruction) {
 				if mu, ok := in.(*ssa.MapUpdate); ok {
